@@ -376,6 +376,16 @@ def writeBack (st : St) (a : Ex) (vals : List (Option Val)) : Option St :=
           | _ => some st
   | _ => some st
 
+/-- an element actual is resolved ONCE, at the call (F2018 15.5.2.3): its subscripts are evaluated before the callee runs and
+the same element receives the copy-out, whatever the callee does to the subscript variables -/
+def freezeActual (st : St) (a : Ex) : Option Ex :=
+  match a with
+  | .idx x subs => do
+      let is ← evalIdx st [] subs
+      let (y, idx) ← resolve st x is
+      pure (.idx y (idx.map fun i => .lit (.int i)))
+  | e => some e
+
 def cellData : Cell → List (Option Val)
   | .scalar _ v => [v]
   | .array _ _ d => d
@@ -450,8 +460,11 @@ def execStmt (p : Program) : Nat → Stmt → St → Res
         | none => .err "unknown unit"
         | some u =>
             if u.args.length ≠ args.length then .err "argument count" else
+            match args.mapM (freezeActual st) with
+            | none => .err "actual argument"
+            | some fargs =>
             -- copy in: scalars first, then arrays (their bounds may use scalar dummies)
-            let pairs := u.args.zip args
+            let pairs := u.args.zip fargs
             let isScalar := fun (x : String) => match findDecl u x with | some d => d.dims.isEmpty | none => true
             let init : Option St := some { store := [], alias := [], out := st.out }
             let bindArgs (sel : String → Bool) (s0 : Option St) : Option St :=
